@@ -111,6 +111,9 @@ func init() {
 			}
 			return e.newErr(s, "fmt.Errorf", cause)
 		}),
+		"(net/http.HandlerFunc).ServeHTTP": func(e *Engine, s *State, f *Frame, x ssa.Value, sf *ssa.Function, a []Value, at ssa.Instruction) ([]*State, bool) {
+			return e.callValue(s, f, x, nil, a[0], a[1:], at)
+		},
 		// ---- bytes.Buffer (append-only use) ----
 		"(*bytes.Buffer).Write": simple(func(e *Engine, s *State, a []Value, at ssa.Instruction, f *ssa.Function) Value {
 			p := a[0].(Ptr)
